@@ -80,7 +80,9 @@ def cases(draw):
             # node (all issued by the CA the receiver trusts): the last two are the wrong key for this security source
             'identity': draw(st.sampled_from(['own', 'own', 'own', 'none', 'other'])),
             # the symmetric key is known under the identifier 'k-mac-1', or under the empty identifier
-            'kid': draw(st.sampled_from(['k-mac-1', 'k-mac-1', '']))}
+            'kid': draw(st.sampled_from(['k-mac-1', 'k-mac-1', ''])),
+            # direction S only: source and receiver get their keys / trust anchor from files named in the configuration
+            'via_files': draw(st.sampled_from([False, False, True]))}
 
 
 def strategy(tier):
@@ -103,6 +105,9 @@ def enumerate_cases(tier):
     for alg, identity in itertools.product((-7, -35), ('none', 'other')):
         yield {'direction': 'S', 'alg': alg, 'targets': ['payload'], 'scope': 0, 'addl': False, 'plen': 5, 'seed': 1, 'pcrc': 0,
                'bcrc': 0, 'sec_crc': 0, 'alterations': [], 'identity': identity}
+    for alg in (-7, -35):
+        yield {'direction': 'S', 'alg': alg, 'targets': ['payload'], 'scope': 0, 'addl': False, 'plen': 5, 'seed': 1, 'pcrc': 0, 'via_files': True,
+               'bcrc': 0, 'sec_crc': 0, 'alterations': [c for c in catalogue if not c[0].startswith('other-')][::2]}
     for alg, targets in itertools.product((-7,) if tier == 'quick' else (-7, -35), (['payload'], ['ext'], ['payload', 'ext'])):
         yield {'direction': 'S', 'alg': alg, 'targets': targets, 'scope': 0, 'addl': False, 'plen': 5, 'seed': 1, 'pcrc': 0,
                'bcrc': 0, 'sec_crc': 0, 'alterations': catalogue + [['x5chain-flip', 0, pos] for pos in range(0, 440, 37)] + [['sig-malleate', 0, 0]]}
@@ -144,6 +149,28 @@ def sign(case, out):
     kid = '' if case.get('kid') == '' else 'k-mac-1'
     if case['direction'] in ('A', 'S'):
         bw.reset()
+        if case.get('via_files') and case['direction'] == 'S' and case['targets'] == ['payload'] and (case.get('identity') or 'own') == 'own':
+            # the deployment way: key and certificate files named in the configuration; the agent then signs the payload
+            # of everything it sources itself (Bpsec load_config), nothing is set up by hand
+            import shutil
+            tmpdir, paths = bu.pem_files('dtn://srcnode/', CURVES[case['alg']], 0)
+            try:
+                src = bw.Node('dtn://srcnode/', tx_routes=[('.*', 'dtn://next/', None)], name='source',
+                              config_extra={'sign_key_file': paths['key'], 'sign_cert_file': paths['cert']})
+            finally:
+                shutil.rmtree(tmpdir, ignore_errors=True)
+            out.label('keys-from-files')
+            err = src.send(BundleContainer(bpconv.to_repo(bundle)))
+            sent = src.sent()
+            if err is not None or len(sent) != 1:
+                out.fail('source-failed', 'the source agent (configured with key files) could not send the bundle: %r (%d bundles)' % (err, len(sent)))
+                return None
+            signed = r.strip(r.decode(sent[0]))
+            if len([b for b in signed['blocks'] if b['type'] == 11]) != 1:
+                out.fail('source-bib-count', 'a source configured with sign_key_file is to sign what it sources; found %d BIBs'
+                         % len([b for b in signed['blocks'] if b['type'] == 11]))
+                return None
+            return signed
         src = bw.Node('dtn://srcnode/', tx_routes=[('.*', 'dtn://next/', None)], name='source')
         if case['direction'] == 'S':
             # COSE_Sign1 with the end-entity certificate in an x5chain (additional unprotected parameter)
@@ -174,12 +201,24 @@ def sign(case, out):
                           addl_protected=(b'\xa0' if case.get('addl') else b''), sec_crc=case.get('sec_crc', 0))
 
 
-def receive(bundle_or_wire, alg, key_override=None, no_key=False, kid='k-mac-1'):
+def receive(bundle_or_wire, alg, key_override=None, no_key=False, kid='k-mac-1', via_files=False):
     ''' Fresh real receiver.  :return: (delivered payload or None, finish records) '''
     from vlib import bp_world as bw, ref9171 as r, bpsec_util as bu
     bw.reset()
-    node = bw.Node('dtn://dst/', rx_routes=[('^dtn://dst/', 'deliver')], tx_routes=[('.*', 'dtn://next/', None)], name='dst')
-    if alg in CURVES:
+    if via_files and alg in CURVES and not no_key:
+        import shutil
+        tmpdir, paths = bu.pem_files('dtn://srcnode/', CURVES[alg], 1 if key_override is not None else 0)
+        try:
+            node = bw.Node('dtn://dst/', rx_routes=[('^dtn://dst/', 'deliver')], tx_routes=[('.*', 'dtn://next/', None)], name='dst',
+                           config_extra={'verify_ca_file': paths['ca']})
+        finally:
+            shutil.rmtree(tmpdir, ignore_errors=True)
+        bu.give_key(node, 'k-mac-2', 5, 'mac')
+    else:
+        node = bw.Node('dtn://dst/', rx_routes=[('^dtn://dst/', 'deliver')], tx_routes=[('.*', 'dtn://next/', None)], name='dst')
+    if via_files and alg in CURVES and not no_key:
+        pass
+    elif alg in CURVES:
         # Sign1: the "key" is the trust anchor; wrong key = some other CA, no key = no trust anchor at all
         if not no_key:
             bu.trust(node, 'dtn://srcnode/', CURVES[alg], 1 if key_override is not None else 0)
@@ -227,7 +266,7 @@ def execute(case):
         if ok:
             out.fail('harness-impostor-verifies', 'the reference accepts a certificate that does not name the security source')
             return out
-        payload, fins, err, escapes = receive(signed, alg, kid=kid)
+        payload, fins, err, escapes = receive(signed, alg, kid=kid, via_files=bool(case.get('via_files')))
         out.count('alterations_evaluated')
         out.count('alteration:signer-identity')
         if payload is not None:
@@ -244,7 +283,7 @@ def execute(case):
     if not ok:
         out.fail('unmodified-does-not-verify:reference', 'the independent verifier rejects the unmodified BIB (direction %s)' % case['direction'])
         return out
-    payload, fins, err, escapes = receive(signed, alg, kid=kid)
+    payload, fins, err, escapes = receive(signed, alg, kid=kid, via_files=bool(case.get('via_files')))
     want_payload = bytes.fromhex(signed['blocks'][-1]['data'])
     if payload != want_payload:
         out.fail('unmodified-not-delivered', 'receiver with the right key did not deliver the unmodified bundle (finish %s, error %r)' % (fins, err))
@@ -271,7 +310,7 @@ def execute(case):
             mutated = bu.edit_asb(signed, 11, lambda asb: _malleate(asb, arg1 % len(target_nums), alg))
             if mutated == signed:
                 continue
-            payload, fins, err, escapes = receive(r.encode(mutated), alg, kid=kid)
+            payload, fins, err, escapes = receive(r.encode(mutated), alg, kid=kid, via_files=bool(case.get('via_files')))
             out.count('alterations_evaluated')
             out.count('alteration:sig-malleate')
             if payload is not None:
@@ -334,7 +373,7 @@ def execute(case):
                     verdict = None    # BIB disappeared (bit flip in its type code): nothing to verify
             except (rc.CoseError, r.RefError, ValueError, KeyError, IndexError, TypeError):
                 verdict = False
-        payload, fins, err, escapes = receive(wire, alg, key_override, no_key, kid=kid)
+        payload, fins, err, escapes = receive(wire, alg, key_override, no_key, kid=kid, via_files=bool(case.get('via_files')))
         delivered = payload is not None
         out.count('alterations_evaluated')
         out.count('alteration:%s' % kind)
